@@ -95,18 +95,7 @@ def _cwd_lookup(fs, name):
 
 
 def _resolve(fs, name, follow=True):
-    """-> index in fs or -1; follows symbolic links (bounded)."""
-    i = fs._find(name)
-    hops = 0
-    while follow and i >= 0 and fs.is_link(i) and hops < 4:
-        tgt = fs.contents[i].target
-        if isinstance(tgt, str) and not tgt.startswith("/"):
-            base = fs.names[i]
-            d = os.path.dirname(base) if type(base) is str else ""
-            tgt = os.path.join(d, tgt) if d else tgt
-        i = fs._find(tgt)
-        hops += 1
-    return i
+    return fs.resolve(name, follow)
 
 
 def v_stat(path, *a, dir_fd=None, follow_symlinks=True, **kw):
